@@ -61,11 +61,14 @@ def execute(script, outlen_mode, as_path, tmp, tag, check_first=0):
     ths = scared.traces.read_ths_from_ram(samples=samples, id=ids, plaintext=pt) if n else None
     outlen = {'same': L, 'longer': L + 2, 'one': 1}[outlen_mode]
     calls = []
+    events = []
+    holder = {}
 
     def f(trace_object):
         k = int(trace_object.id) - 100
         calls.append(k)
         o = script[k]
+        events.append({'ans': o, 'processed': int(holder['s'].processed_counter), 'synchronized': int(holder['s'].synchronized_counter)})
         if o == 'R':
             raise scared.ResynchroError('rejected') if k % 2 else ValueError('boom')
         if o == 'N':
@@ -76,6 +79,7 @@ def execute(script, outlen_mode, as_path, tmp, tag, check_first=0):
         return np.concatenate([base, np.array([k, -k], dtype='int32')])
     fn = os.path.join(tmp, f'out_{tag}.ets')
     s = scared.Synchronizer(ths, Path(fn) if as_path else fn, f)
+    holder['s'] = s
     obs = {'error': None}
     if check_first:
         np.random.seed(len(script) * 7 + check_first)
@@ -84,6 +88,7 @@ def execute(script, outlen_mode, as_path, tmp, tag, check_first=0):
         except Exception as ex:           # noqa
             obs['check_error'] = repr(ex)[:100]
         del calls[:]
+        del events[:]
     with warnings.catch_warnings(record=True) as wl:
         warnings.simplefilter('always')
         try:
@@ -94,6 +99,7 @@ def execute(script, outlen_mode, as_path, tmp, tag, check_first=0):
     obs['warnings'] = sum(1 for w in wl if issubclass(w.category, UserWarning) and 'consecutive' in str(w.message))
     obs['processed'], obs['synchronized'] = int(s.processed_counter), int(s.synchronized_counter)
     obs['calls'] = calls
+    obs['events'] = list(events)
     if out is not None:
         obs['len'] = len(out)
         obs['rows'] = [np.asarray(out.samples[i]).tolist() for i in range(len(out))]
@@ -120,6 +126,9 @@ def execute(script, outlen_mode, as_path, tmp, tag, check_first=0):
     obs['_expected_rows'] = expected_rows
     obs['_pt'] = pt.tolist()
     return obs
+
+
+RECORDED = []
 
 
 def judge(e, obs):
@@ -173,6 +182,9 @@ def run(chk):
             for mode, as_path in variants:
                 obs = execute(script, mode, as_path, tmp, f'{j}_{mode}', check_first=(2 if e.get('checked') else 0))
                 bad = judge(e, obs)
+                if len(RECORDED) < 4000:
+                    RECORDED.append(({'ev': obs['events'], 'final': {'processed': obs['processed'], 'synchronized': obs['synchronized'],
+                                                                     'out': [i - 99 for i in obs.get('ids', [])]}}, script, mode))
                 mixed = ('A' in script and any(x != 'A' for x in script)) or 'A' not in script
                 chk.count((tuple(script), mode, as_path, bool(e.get('checked'))), nontrivial=mixed)
                 chk.traces_validated += 1
@@ -187,9 +199,31 @@ def run(chk):
                 os.unlink(os.path.join(tmp, fn))
             if j in (50, 500):
                 chk.sample({'script': ''.join(script), 'output_source_ids': e['out'], 'processed': e['processed'], 'synchronized': e['synchronized']})
+        validate_recorded(chk)
         chk.sample({'long_script': ''.join(longs[2]), 'warnings_in_model': [x['warnings'] for x in emitted if len(x['script']) == len(longs[2])][:1]})
     finally:
         shutil.rmtree(tmp, ignore_errors=True)
+
+
+def validate_recorded(chk):
+    """(V) every recorded execution judged by specs/SynchronizerTrace.tla"""
+    if not RECORDED:
+        return
+    path = dh.write_json([r for r, _, _ in RECORDED])
+    try:
+        r = tlc.run('SynchronizerTrace', cfg_text=tlc.cfg(invariants=['Verdict']), env={'TRACES': path}, workers=1, timeout=1200, heap='6g')
+    finally:
+        os.unlink(path)
+    chk.add_tlc('TRACE:recorded executions (counters seen inside every call, final counters, output ids)', r)
+    verd = r.emits('VERDICT')
+    if len(verd) != len(RECORDED):
+        raise tlc.TLCError(f'SynchronizerTrace: {len(verd)} verdicts for {len(RECORDED)} executions')
+    for v in verd:
+        rec, script, mode = RECORDED[v['t'] - 1]
+        chk.traces_validated += 1
+        if v['clause'] != 'ok':
+            chk.violation(f'recorded:{v["clause"].split(" call ")[0]}', {'property': 'C20', 'part': 'recorded', 'script': script, 'returned_length': mode, 'recorded': rec, 'clause': v['clause']},
+                          f'script {"".join(script)}: {v["clause"]}')
 
 
 def replay(chk, path):
